@@ -1,4 +1,15 @@
 #!/bin/sh
-# development runs against a pristine copy of the repository and a private copy of the harness directory
-# (/dev_root/repo, /dev_root/verif/kani), so that /repo and /verif/kani can be used by validation batches meanwhile
+# Development runs against a pristine copy of the repository and a private copy of the harness directory
+# (/dev_root/repo = git worktree of /repo HEAD, /dev_root/verif/kani = copy of /verif/kani), so that /repo and /verif/kani
+# can be used by validation batches meanwhile. Created on first use; remove with
+#   git -C /repo worktree remove --force /dev_root/repo && rm -r /dev_root /verif/target_dev
+set -e
+if [ ! -d /dev_root/repo ]; then
+  mkdir -p /dev_root/verif
+  git -C /repo worktree add -q /dev_root/repo HEAD
+fi
+if [ ! -d /dev_root/verif/kani ]; then
+  mkdir -p /dev_root/verif
+  cp -r /verif/kani /dev_root/verif/kani
+fi
 cd /verif && VERIF_REPO=/dev_root/repo VERIF_TARGET=/verif/target_dev VERIF_KANI=/dev_root/verif/kani ./check "$@" --no-evidence
